@@ -10,7 +10,7 @@ SCHED_NOTE = ("trusted base: the virtual event loop (mc/vloop.py), the stub simu
 
 CHECKS = {
     "C01": ("model_checking", "3 C01", "stateful DFS over reply-delivery schedules of the real scheduler (virtual asyncio loop), deviation-bounded early deliveries; trace monitor vs. reference tiered-time semantics",
-            "for every explored scenario x configuration, no order of reply arrivals (with <= d early deliveries) lets a consumer begin a step before its producers finished everything due, nor a producer step late", SCHED_NOTE),
+            "for every explored scenario x configuration, no order of reply arrivals (with <= d early deliveries) lets a consumer begin a step before its producers finished everything due (directly, or transitively through steps that can still trigger a producer), nor a producer step late", SCHED_NOTE),
     "C02": ("model_checking", "3 C02", "stateful DFS over reply-delivery schedules; demand-set monitor built from the replies observed in the same execution",
             "in every explored schedule each simulator is stepped exactly at the demanded times, once, in order", SCHED_NOTE),
     "C03": ("model_checking", "3 C03", "stateful DFS over reply-delivery schedules; inputs of every step compared with the reference visibility rule (provenance tokens)",
@@ -31,7 +31,7 @@ ENUM_NOTE = ("trusted base: the reference predicate/table written from the state
              "enumeration bound stated in the evidence; every case is executed on the real code")
 CHECKS.update({
     "C06": ("model_checking", "3 C06", "bounded-exhaustive enumeration of connection multigraphs (<=3 simulators, 4 group placements, <=4 connections of kind plain/shifted/weak/async, up to renaming) through world.run(); reference = simple-cycle enumeration",
-            "every enumerated graph: ScenarioError before any step iff the reference finds an unresolved cycle, named cycle is real, accepted scenarios run", ENUM_NOTE),
+            "every enumerated graph (about 210 000 in the quick tier: <=3 simulators/<=4 connections up to renaming, async families, a 2+2-simulator motif family): ScenarioError before any step iff the reference finds an unresolved cycle, the named cycle is real, accepted scenarios run to completion", ENUM_NOTE),
     "C08": ("model_checking", "3 C08", "bounded-exhaustive enumeration of TieredInterval/TieredTime values of every shape (length<=3, tiers 0..2) and evaluation of the order/action/associativity laws with the real operators",
             "all ordered pairs / triples within the bound satisfy trichotomy, transitivity, monotone action, associativity", ENUM_NOTE),
     "C11": ("model_checking", "3 C11", "bounded-exhaustive enumeration of connect() calls (types x group placements x attributes x flags, two-pair calls, any_inputs) against a reference predicate, world snapshot before/after; schedule exploration of group-scoping scenarios",
